@@ -615,7 +615,7 @@ fn run_worker(
                 super::extend_range_protocol::request_range_extension(
                     &mut worker_params,
                     &mut new_leaf_state.leaves_tracker,
-                );
+                )?;
             }
 
             reset_leaf_base(
@@ -647,7 +647,7 @@ fn run_worker(
             .map_or(false, |high| cutoff >= high)
         {
             has_extended_range = true;
-            request_range_extension(&mut worker_params, &mut new_leaf_state.leaves_tracker);
+            request_range_extension(&mut worker_params, &mut new_leaf_state.leaves_tracker)?;
         }
 
         reset_leaf_base(
